@@ -104,8 +104,41 @@ def suite_legacy(seed, tier):
                     r.bad.append({"suite": "legacy", "variant": variant, "cfg": cfg,
                                   "n_rows": n, "first_rows": rows[:2],
                                   "what": "legacy implementation disagrees with the current one"})
+    # sparse 2048-bit inputs on which the radius and the diameter family decide differently (threshold
+    # between the two statistics of the last merge): the legacy radius / diameter criteria are the reference
+    sep = 0
+    for rows, cfg in gen_separating(rng, 24 if tier == "quick" else 400):
+        if cfg["crit"] not in ("radius", "diameter"):
+            continue
+        wide = []
+        nfs = len(rows[0])
+        cols = rng.sample(range(2048), nfs)
+        for row in rows:
+            w = [0] * 2048
+            for j, b in enumerate(row):
+                if b:
+                    w[cols[j]] = 1
+            wide.append(w)
+        cfg = {**cfg, "bf": 50}
+        bb = hist.make_bb(cfg)
+        bb.fit(np.array(wide, dtype=np.uint8), input_is_packed=False)
+        cur = bb.get_cluster_mol_ids()
+        for variant in ("uint8", "int64"):
+            try:
+                leg = legacy_clusters(variant, wide, cfg)
+            except FloatingPointError:
+                undefined += 1
+                continue
+            r.cases += 1
+            sep += 1
+            if leg != cur:
+                r.bad.append({"suite": "legacy", "variant": variant, "cfg": cfg, "n_rows": len(rows),
+                              "rows_on_bits": [[cols[j] for j, b in enumerate(row) if b] for row in rows],
+                              "legacy_rows": wide,
+                              "what": f"legacy implementation disagrees with the current one on a sparse input "
+                                      f"({len(leg)} vs {len(cur)} clusters)"})
     r.nontrivial = r.cases
-    r.stats = {"inputs": n_inputs, "undefined_for_legacy": undefined}
+    r.stats = {"inputs": n_inputs, "undefined_for_legacy": undefined, "criteria_separating_runs": sep}
     r.samples = [{"n_rows": 150 if tier == "quick" else 800, "bits": 2048}]
     return r
 
@@ -141,19 +174,59 @@ def gen_tall(rng, n_cases):
     return out
 
 
+def gen_separating(rng, n_cases):
+    """sparse row sequences r_0 .. r_t and a threshold T such that every merge of r_1 .. r_(t-1) into the
+    growing cluster passes BOTH statistics (iSIM and radius complement >= T) while the last merge passes
+    exactly one of them: the radius and the diameter families then decide differently on the last row, so
+    the clustering shows which statistic a criterion really evaluates"""
+    import oracles_hist
+    out = []
+    tries = 0
+    while len(out) < n_cases and tries < 2000 * n_cases:
+        tries += 1
+        # both directions are wanted: iSIM above the radius complement (several bits each present in fewer
+        # than half of the members) and below it (the usual case)
+        want_isim_above = (len(out) // 4) % 2 == 0
+        nf = rng.choice([7, 8, 12, 16, 64])
+        shared = rng.sample(range(nf), rng.choice([1, 2, 3]))
+        minority = [j for j in range(nf) if j not in shared][:rng.randint(3, 6)]
+        p = rng.choice([0.3, 0.4, 0.5])
+        rows, ks, floor = [], [0] * nf, 1.0
+        for t in range(rng.randint(5, 14)):
+            on = set(shared) | {j for j in minority if rng.random() < p}
+            row = [1 if j in on else 0 for j in range(nf)]
+            rows.append(row)
+            ks = [k + b for k, b in zip(ks, row)]
+            if t == 0:
+                continue
+            a, b = float(oracles_hist.exact_isim(ks, t + 1)), float(oracles_hist.exact_rcompl(ks, t + 1))
+            lo, hi = min(a, b), max(a, b)
+            top = min(hi, floor)
+            if t >= 3 and top - lo > 0.01 and (a > b) == want_isim_above:
+                thr = round(lo + (top - lo) / 2, 5)
+                for crit in ("radius", "diameter", "tolerance-radius", "tolerance-diameter"):
+                    cfg = {"crit": crit, "tol": 0.0 if crit.startswith("tol") else None, "thr": thr,
+                           "bf": rng.choice([3, 50])}
+                    out.append(([list(r) for r in rows], cfg))
+                break
+            floor = min(floor, lo)
+    return out
+
+
 def suite_reference_tall(seed, tier):
     """the implementation against the reference procedure (harness/spec_py.py, the executable reading of
     Model/Spec.v) on inputs with big clusters"""
     rng = random.Random(seed + 13)
     r = Result("reference-tall")
-    for rows, cfg in gen_tall(rng, 4 if tier == "quick" else 60):
+    for rows, cfg in gen_tall(rng, 4 if tier == "quick" else 60) + gen_separating(rng, 40 if tier == "quick" else 800):
         r.cases += 1
         v = c07_violation(rows, cfg)
         if v:
             r.bad.append({"suite": "reference-tall", "what": v, "rows": rows, "cfg": cfg})
     r.nontrivial = r.cases
     r.stats = {"inputs": r.cases}
-    r.samples = [{"kind": "one family of 130..400 near-identical rows + small families"}]
+    r.samples = [{"kind": "one family of 130..400 near-identical rows + small families; sparse inputs with the "
+                          "threshold between iSIM and radius complement of a would-be cluster"}]
     return r
 
 
@@ -167,8 +240,29 @@ def c07_violation(rows, cfg):
     return None
 
 
+def legacy_violation(rows, cfg, variant):
+    bb = hist.make_bb(cfg)
+    bb.fit(np.array(rows, dtype=np.uint8), input_is_packed=False)
+    cur = bb.get_cluster_mol_ids()
+    try:
+        leg = legacy_clusters(variant, rows, cfg)
+    except FloatingPointError:
+        return None
+    if leg != cur:
+        return (f"the bundled legacy implementation ({variant}) gives {len(leg)} clusters, the current one "
+                f"{len(cur)}: {leg[:3]} vs {cur[:3]}")
+    return None
+
+
 def search_c07(seed, tier, failures):
     cands = []
+    for kind, d in failures:
+        if isinstance(d, dict) and "legacy_rows" in d:
+            v = legacy_violation(d["legacy_rows"], d["cfg"], d["variant"])
+            if v:
+                on = [[j for j, b in enumerate(row) if b] for row in d["legacy_rows"]]
+                return {"legacy_rows_on_bits": on, "n_bits": len(d["legacy_rows"][0]), "cfg": d["cfg"],
+                        "legacy_variant": d["variant"], "violation": v}
     for kind, d in failures:
         if isinstance(d, dict) and "rows" in d and "cfg" in d:
             cands.append((d["rows"], d["cfg"]))
@@ -178,7 +272,7 @@ def search_c07(seed, tier, failures):
             if rows and all(o["op"] == "fit" for o in h["ops"]):
                 cands.append((rows, h["cfg"]))
     rng = random.Random(seed + 21)
-    cands += gen_tall(rng, 6)
+    cands += gen_tall(rng, 6) + gen_separating(rng, 60)
     for _ in range(300 if tier == "quick" else 3000):
         cfg = hist.gen_cfg(rng)
         nf = rng.choice([3, 5, 8, 11, 16, 24])
@@ -195,6 +289,9 @@ def replay_c07(payload):
     fi = payload.get("failing_input")
     if not fi:
         return True
+    if "legacy_rows_on_bits" in fi:
+        rows = [[1 if j in set(on) else 0 for j in range(fi["n_bits"])] for on in fi["legacy_rows_on_bits"]]
+        return legacy_violation(rows, fi["cfg"], fi["legacy_variant"]) is None
     return c07_violation(fi["rows"], fi["cfg"]) is None
 
 
